@@ -2,7 +2,7 @@
 (* The Rust parallel map behind as_numpy_iterator_rust (rust/src/parallel_map.rs): min(T, N) worker        *)
 (* threads, one pair of mpsc channels per worker, results taken in rotation.  Items are 1..N; the message   *)
 (* None is 0.                                                                                              *)
-EXTENDS Naturals, Sequences, FiniteSets, TLC
+EXTENDS Naturals, Sequences, FiniteSets
 
 CONSTANTS T, N,
           PanicChoices, \* set of sets: which items make the mapped function panic (chosen in the initial state)
